@@ -11,6 +11,66 @@ import (
 // C13: alternative input formats of the same content give identical results
 // =====================================================================================
 
+// every shipped crop parameter file (code, variety); permanent crops are grown as several consecutive cuts
+var c13CropFiles = [][2]string{{"AA", ""}, {"CCM", ""}, {"GR", ""}, {"K", ""}, {"LUP", ""}, {"OA", ""}, {"OEL", ""}, {"ORH", ""}, {"PH", ""}, {"SE", ""}, {"SM", ""}, {"SOY", ""},
+	{"SW", ""}, {"TR", ""}, {"WG", ""}, {"WR", ""}, {"WRA", ""}, {"WRC", ""}, {"WW", ""}, {"ZR", ""}, {"SOY", "0"}, {"SOY", "00"}, {"SOY", "000"}, {"SOY", "0000"}, {"ZR", "chrnew"}, {"SOY", "i"}, {"SOY", "ii"}, {"SOY", "iii"}}
+
+var c13Permanent = map[string]bool{"AA": true, "GR": true}
+
+// c13Rotation rebuilds the rotation around one shipped parameter file: pre-crop, optionally one annual crop, then the target
+// crop (permanent crops: 2-4 consecutive cuts, which exercises the regrowth branch of the readers), then annual crops
+func c13Rotation(sc *Scenario, r *Rng, code, variety string) {
+	pre := sc.Rotation[0]
+	sc.Rotation = []RotEntry{pre}
+	cur := sc.Start
+	addAnnual := func() {
+		ci := &cropTable[r.Intn(len(cropTable))]
+		sow := nextDOY(cur.AddDays(r.Range(4, 30)), r.Range(ci.SowLo, ci.SowHi))
+		var harv Date
+		if ci.Winter {
+			harv = nextDOY(Date{sow.Y, 12, 31}, r.Range(ci.HarvLo, ci.HarvHi))
+		} else {
+			harv = nextDOY(sow.AddDays(40), r.Range(ci.HarvLo, ci.HarvHi))
+		}
+		sc.Rotation = append(sc.Rotation, RotEntry{Crop: ci.Code, Sow: sow, Harvest: harv, Rex: pickI(r, []int{0, 100, 50})})
+		cur = harv
+	}
+	if r.Bool(0.5) {
+		addAnnual()
+	}
+	if c13Permanent[code] {
+		sow := nextDOY(cur.AddDays(r.Range(4, 30)), r.Range(70, 110))
+		cuts := r.Range(2, 4)
+		for k := 0; k < cuts; k++ {
+			harv := sow.AddDays(r.Range(50, 95))
+			sc.Rotation = append(sc.Rotation, RotEntry{Crop: code, Sow: sow, Harvest: harv, Rex: pickI(r, []int{0, 100})})
+			cur = harv
+			sow = harv.AddDays(1)
+		}
+	} else if ci := cropInfo(code); ci != nil {
+		sow := nextDOY(cur.AddDays(r.Range(4, 30)), r.Range(ci.SowLo, ci.SowHi))
+		var harv Date
+		if ci.Winter {
+			harv = nextDOY(Date{sow.Y, 12, 31}, r.Range(ci.HarvLo, ci.HarvHi))
+		} else {
+			harv = nextDOY(sow.AddDays(40), r.Range(ci.HarvLo, ci.HarvHi))
+		}
+		sc.Rotation = append(sc.Rotation, RotEntry{Crop: code, Variety: variety, Sow: sow, Harvest: harv, Rex: pickI(r, []int{0, 100, 50})})
+		cur = harv
+	} else {
+		// catch / cover crops without an entry in the generator's table: sown in late summer or spring, grown 60-150 days
+		sow := nextDOY(cur.AddDays(r.Range(4, 30)), pickI(r, []int{100, 120, 220, 240}))
+		harv := sow.AddDays(r.Range(60, 150))
+		sc.Rotation = append(sc.Rotation, RotEntry{Crop: code, Variety: variety, Sow: sow, Harvest: harv, Rex: pickI(r, []int{0, 100, 200})})
+		cur = harv
+	}
+	for len(sc.Rotation) < 12 && cur.Zeit() <= sc.End.Zeit() {
+		addAnnual()
+	}
+	// events of the generic generator may now fall inside a crop: keep fertiliser / irrigation, drop tillage
+	sc.Till = nil
+}
+
 var c13Kinds = []string{"crop_classic_vs_yaml", "crop_classic_vs_converter_yaml", "soil_txt_vs_csv", "rotation_txt_vs_csv", "measurement_txt_vs_csv",
 	"weather_per_year_vs_multi_year_csv", "weather_multi_year_csv_vs_day_of_year", "date_formats"}
 
@@ -65,12 +125,18 @@ func runC13Case(tier string, seed uint64, idx int, keepDir string) *CaseResult {
 	p.Measurement = 0
 	p.NoneValues = 0
 	p.Years = [2]int{2, 3}
-	if kind == "crop_classic_vs_yaml" || kind == "crop_classic_vs_converter_yaml" {
-		// every shipped annual main crop file in turn
-		p.Crops = []string{cropTable[(idx/len(c13Kinds))%len(cropTable)].Code}
+	cropPair := kind == "crop_classic_vs_yaml" || kind == "crop_classic_vs_converter_yaml"
+	var cropFile [2]string
+	if cropPair {
+		// every shipped crop parameter file in turn
+		cropFile = c13CropFiles[(idx/len(c13Kinds))%len(c13CropFiles)]
 		p.ColdClimate = 0.1
+		p.Years = [2]int{2, 4}
 	}
 	sc := genWithProfile("C13", seed, idx, r, p)
+	if cropPair {
+		c13Rotation(sc, r, cropFile[0], cropFile[1])
+	}
 	sc.ResultFormat = 1
 	sc.DailyCols = pairDailyCols(sc.Soil.N())
 	a := sc
@@ -82,7 +148,7 @@ func runC13Case(tier string, seed uint64, idx int, keepDir string) *CaseResult {
 		a.CropParamYml = false
 		b = cloneScenario(a)
 		b.CropParamYml = true
-		desc += " crop " + p.Crops[0]
+		desc += " crop file " + cropParamFileName(cropFile[0], cropFile[1], false)
 	case "crop_classic_vs_converter_yaml":
 		a.CropParamYml = false
 		b = cloneScenario(a)
@@ -105,7 +171,7 @@ func runC13Case(tier string, seed uint64, idx int, keepDir string) *CaseResult {
 			}
 			return []string{"parameter=param_conv"}
 		}
-		desc += " crop " + p.Crops[0]
+		desc += " crop file " + cropParamFileName(cropFile[0], cropFile[1], false)
 	case "soil_txt_vs_csv":
 		for i := range a.Soil.Horizons {
 			a.Soil.Horizons[i].BD = 0 // a measured bulk density has no column in the fixed-width file
@@ -203,8 +269,11 @@ func runC13Case(tier string, seed uint64, idx int, keepDir string) *CaseResult {
 		res.Cov["pairs_both_failed_alike"]++
 	}
 	res.Cov["pairs_"+kind]++
-	if strings.HasPrefix(kind, "crop_") {
-		res.Cov["crop_files_"+p.Crops[0]]++
+	if cropPair {
+		res.Cov["crop_file_"+cropParamFileName(cropFile[0], cropFile[1], false)]++
+		if c13Permanent[cropFile[0]] {
+			res.Cov["pairs_permanent_crop_regrowth"]++
+		}
 	}
 	res.NonTrivial = runA.Status == "ok" && runA.Days > 30
 	res.Sample = map[string]interface{}{"pair": desc, "start": a.Start.String(), "end": a.End.String(), "soil_layers": a.Soil.N(), "weather_layouts": fmt.Sprintf("%d/%d", a.Weather.Layout, b.Weather.Layout)}
@@ -226,7 +295,7 @@ func init() {
 	}
 	otherChecks["C13"] = func(tier string, seed uint64) int {
 		spec := checkSpec{Prop: "C13", Level: "exploration", NQuick: 400, NThorough: 12000,
-			Rule:   fmt.Sprintf("case i is a pair of kind i mod %d from %v: one generated project written in two encodings of the same content (values restricted to what both encodings can carry exactly; the crop pairs cycle through every shipped annual main crop file, the converter pair runs the real cropfileconverter binary), both run through the real model, all result files compared byte for byte (12 significant digits of crop, water, N and temperature state per day; date text columns rewritten to ISO only for the date-format pairs); non-trivial = both runs completed > 30 days", len(c13Kinds), c13Kinds),
+			Rule:   fmt.Sprintf("case i is a pair of kind i mod %d from %v: one generated project written in two encodings of the same content (values restricted to what both encodings can carry exactly; the crop pairs cycle through every shipped crop parameter file incl. varieties and the permanent crops grown as consecutive cuts, the converter pair runs the real cropfileconverter binary), both run through the real model, all result files compared byte for byte (12 significant digits of crop, water, N and temperature state per day; date text columns rewritten to ISO only for the date-format pairs); non-trivial = both runs completed > 30 days", len(c13Kinds), c13Kinds),
 			Floors: floors}
 		return runSimCheck(spec, tier, seed)
 	}
